@@ -61,6 +61,7 @@ def default_params():
         dilate=[False, False],      # the side also calls w.dilate(): dilate-N records share the mailbox
         hs_fail_first=[False, False],   # the first connection's WebSocket negotiation may fail (a scheduler event)
         hs_slow=[False, False],     # TCP connection and WebSocket negotiation are separate scheduler events
+        re_refuse=[0, 0],           # budget of reconnection attempts that fail at the TCP level (server unreachable)
         extra_msg_gets=0,           # deferred API: additional concurrently outstanding get_message() chains
         w_progress=10, w_app=6, w_drop=1, w_adv=2,
         settle_after_close=True,
@@ -320,6 +321,7 @@ def _run(P, rec, W, tape, on_step, setup, at_stable, adversary=None, on_idle=Non
         w._sim_svc.refuse = P["refuse"][i]
         w._sim_svc.hs_fail = P["hs_fail"][i]
         w._sim_svc.hs_slow = P["hs_slow"][i]
+        w._sim_svc.re_refuse = (P.get("re_refuse") or [0, 0])[i]
         w._sim_svc.hs_fail_first = P["hs_fail_first"][i]
         ws.append(w)
         _install_trace(rec, i, w)
@@ -601,6 +603,9 @@ def _run(P, rec, W, tape, on_step, setup, at_stable, adversary=None, on_idle=Non
                     choices.append((P["w_drop"], e))
             elif e[0] == "mb.hsfail":
                 choices.append((P["w_drop"] + 2, e))
+            elif e[0] == "mb.refuse":
+                # an outage: reconnection attempts fail one after the other
+                choices.append((P.get("w_refuse") or 30, e))
             elif e[0] == "clock.due" and P.get("w_due"):
                 # a busy reactor: eventual-send turns (callLater(0)) run late relative to network events
                 choices.append((P["w_due"], e))
